@@ -291,7 +291,10 @@ func (g *G) BoolPred(depth int) *xast.Expr {
 		// nested predicate on the last step of the predicate path
 		pp.Steps[len(pp.Steps)-1].Preds = []*xast.Expr{g.BoolPred(depth - 1)}
 	}
-	switch g.R.Intn(12) {
+	switch g.R.Intn(13) {
+	case 12:
+		// node-set compared with a node-set: true iff some pair of string-values satisfies it
+		return bin([]string{"=", "!="}[g.R.Intn(2)], pp, g.relPath(1+g.R.Intn(2), false))
 	case 0, 1, 2:
 		return pp
 	case 3:
